@@ -232,6 +232,11 @@ def execute(ctx):
                    "-test.timeout=%ds" % tmo,
                    # the testing package logs every os.Getenv / file access made while the tests run
                    "-test.testlogfile=" + os.path.join(work, "testlog-%d-%d.txt" % (len(jobs), k))] + r.get("args", [])
+            # a cap on the address space of the pure library checks (a change that makes the library allocate without end
+            # must end the worker, not the machine): not for race builds (the race detector's shadow memory) and not for
+            # workers that start Node or the REST server themselves
+            if r.get("bin", "plain") == "plain" and not spec.get("prebuild") and spec.get("builder") != "h09" and os.environ.get("VERIF_NO_MEMCAP") != "1":
+                cmd = ["sh", "-c", "ulimit -v %d 2>/dev/null; exec \"$@\"" % (24 << 20), "sh"] + cmd
             jobs.append(("%s#%d" % (r["name"], k), cmd, env, tmo + 60, os.path.join(ctx["root"], r["cwd"]) if r.get("cwd") else moddir))
     failed = []
 
